@@ -189,6 +189,17 @@ def build_ops():
         ("copyto", "func", I, lambda x, y: np.copyto(x, y), "lefta"),
         ("copyto_where", "func", I, lambda x, y: np.copyto(x, y, where=_partial_mask(x)), "lefta"),
         ("searchsorted", "func", I, lambda x, y: np.searchsorted(np.sort(_1d(x)), y), "leftq"),
+        # boundary values written next to the differences: keyword and positional spelling of each
+        ("ediff1d", "to_end-kw", I, lambda x, y: np.ediff1d(_1d(x), to_end=y), "leftq"),
+        ("ediff1d", "to_begin-kw", I, lambda x, y: np.ediff1d(_1d(x), to_begin=y), "leftq"),
+        ("ediff1d", "to_end-positional", I, lambda x, y: np.ediff1d(_1d(x), y), "leftq"),
+        ("ediff1d", "to_begin-positional", I, lambda x, y: np.ediff1d(_1d(x), None, y), "leftq"),
+        ("diff", "prepend-kw", I, lambda x, y: np.diff(_1d(x), prepend=_first(y)), "leftq"),
+        ("diff", "append-kw", I, lambda x, y: np.diff(_1d(x), append=_first(y)), "leftq"),
+        ("diff", "prepend-positional", I, lambda x, y: np.diff(_1d(x), 1, -1, _first(y)), "leftq"),
+        ("diff", "append-positional", I, lambda x, y: np.diff(_1d(x), 1, -1, np._NoValue, _first(y)), "leftq"),
+        ("interp", "left-kw", I, lambda x, y: np.interp(np.arange(3.0), np.arange(3.0), _1d(x)[:3] if np.size(_strip(x)) >= 3 else np.resize(_1d(x), 3), left=_first(y)), "leftq"),
+        ("interp", "right-positional", I, lambda x, y: np.interp(np.arange(3.0), np.arange(3.0), np.resize(_1d(x), 3), None, _first(y)), "leftq"),
         ("setitem_int", "index", I, lambda x, y: x.__setitem__(0, _first(y)), "lefta"),
         ("setitem_slice", "index", I, lambda x, y: x.__setitem__(slice(None), y), "lefta"),
         ("setitem_mask", "index", I, lambda x, y: x.__setitem__(np.ones(x.shape, bool), _first(y)), "lefta"),
